@@ -7,6 +7,7 @@ from sqlfluff.core import (
     Linter,
     SQLBaseError,
     SQLFluffUserError,
+    SQLLintError,
     dialect_selector,
 )
 from sqlfluff.core.types import ConfigMappingType
@@ -162,7 +163,10 @@ def fix(
         total_errors, _ = result.count_tmp_prs_errors()
         if total_errors > 0:
             should_fix = False
-    if should_fix:
+    # NOTE: As for stdin on the command line, only ask for the fixed string if
+    # there is something to fix. A file which was skipped (e.g. for being over
+    # the configured size limit) has no tree or templated file to fix.
+    if should_fix and result.num_violations(types=SQLLintError, fixable=True) > 0:
         sql = result.paths[0].files[0].fix_string()[0]
     return sql
 
